@@ -1348,6 +1348,7 @@ fn round_w2(seed: u64, pm: u64) -> Result<(usize, usize), String> {
             let mut rng = Rng::new(sseed);
             let mut reads: Vec<ListRead> = vec![];
             let mut last: Option<Vec<u64>> = None;
+            let mut polls_after_close = 0u32;
             start.wait();
             loop {
                 if rng.chance(1, 4) {
@@ -1391,6 +1392,15 @@ fn round_w2(seed: u64, pm: u64) -> Result<(usize, usize), String> {
                             // business, not C04's: do not hang on it)
                             while !flag.woken() && !closed.get() {
                                 std::thread::park_timeout(Duration::from_millis(2));
+                            }
+                            if closed.get() {
+                                polls_after_close += 1;
+                                if polls_after_close >= 3 {
+                                    // every owner is gone and the stream still answers Pending: whether it ends is
+                                    // C03's business; this round's questions are answered, do not spin on it
+                                    clear_mode();
+                                    return Ok(reads);
+                                }
                             }
                             break;
                         }
